@@ -437,6 +437,33 @@ def r_teardown(prog, R, L):
             r.viol("reinit tests %s under lock" % fld, g.name, g.loc(g.ln), "ares_reinit does not test channel->%s with the lock held" % fld)
 
 
+def r_reinit_handshake(prog, R, L):
+    r = R.rule("R-C11-REINITJOIN", "ares_reinit joins the previous reload thread while holding the channel lock, relying on 'not pending => that thread takes no lock again': "
+               "the reload thread clears reinit_pending only after its last lock acquisition", floor=1, analysis="reachability store -> lock acquisition (A-LOCK may-lock summaries)")
+    f = prog.func("ares_reinit_thread")
+    stores = [(b, i, el) for b, i, el in f.elements() if el["k"] == "asg" and is_field(el["e"]["l"], "reinit_pending") and name_of_const(el["e"].get("r")) == "ARES_FALSE"]
+    if not r.require(bool(stores), "ares_reinit_thread: reinit_pending = ARES_FALSE not found"):
+        return
+    # the premise: ares_reinit joins under the lock only when reinit_pending is false
+    for b, i, el in stores:
+        k = "reload thread takes no lock after clearing reinit_pending"
+        hit = None
+        for (bb, ii) in reach_after(f, b.id, i):
+            e2 = f.blocks[bb].els[ii]
+            if e2["k"] != "call":
+                continue
+            cal = e2["e"].get("callee") or ""
+            if cal.endswith("_lock") and not cal.endswith("unlock"):
+                hit = e2
+            t = prog.resolve(f, e2["e"])
+            if t is not None and L.may_lock.get(t.key):
+                hit = e2
+        if hit is None:
+            r.ok(k, f.loc(el))
+        else:
+            r.viol(k, f.name, f.loc(el), "ares_reinit_thread clears reinit_pending and afterwards still reaches %s(), which takes the channel lock: a second ares_reinit() sees 'not pending', joins this thread while holding that lock, and both wait for each other forever (every later channel call hangs)" % (hit["e"].get("callee") or "a call"))
+
+
 def r_evmerge(prog, R):
     r = R.rule("R-C11-EVMERGE", "requests queued for the event thread are merged only with a live request for the same handle, never with a queued removal: a descriptor "
                "number closed and reopened before the event thread looks is removed first and registered afresh (otherwise its events are lost)", floor=2,
@@ -481,3 +508,4 @@ def run(prog, R, tier):
     # the one cross-thread wake-up the per-request time bound rests on (same rule as C07)
     C07.r_wake(prog, R, rid="R-C11-WAKE")
     r_evmerge(prog, R)
+    r_reinit_handshake(prog, R, L)
